@@ -801,7 +801,7 @@ def cp1(F, R):
             use = None
             for b2, t2 in fn.calls():
                 for a in t2["args"]:
-                    if a.get("k") in ("copy", "move") and a["p"]["l"] == dest and not a["p"]["proj"]:
+                    if a.get("k") in ("copy", "move") and not a["p"]["proj"] and (a["p"]["l"] == dest or (lambda q: q[0] == "call" and q[3] == b)(strip_refs(fn.term_of_operand(a, b2)))):
                         use = (b2, t2)
             if use is None:
                 # matched on directly: `match table.push(x) { Ok(()) => .., Err(_) => Err(TooMany..) }`
@@ -991,7 +991,7 @@ def lk1(F, R):
                 dest = t["dest"]["l"]
                 okc = False
                 for b2, t2 in fn.calls():
-                    if (callee_of(t2) or "").endswith("::map_err") and t2["args"][0].get("p", {}).get("l") == dest:
+                    if (callee_of(t2) or "").endswith("::map_err") and (t2["args"][0].get("p", {}).get("l") == dest or (lambda q: q[0] == "call" and q[3] == b)(strip_refs(fn.term_of_operand(t2["args"][0], b2)))):
                         clos = fn.term_of_operand(t2["args"][1], b2)
                         if clos[0] == "agg" and clos[1] == "Closure":
                             cf = F.closure(clos[2])
